@@ -63,6 +63,11 @@ void vf_case(vf::Ctx& c) {
     vf::Tape& t = c.t;
     void* longlived = WOCF.create();
     struct G { void* p; ~G() { WOCF.freec(p); } } g{longlived};
+    // decoder side of the property: ONE long-lived streaming decoder takes every frame of the life through its internal
+    // ring buffer (small output chunks), which wraps many times on frames longer than the window
+    ZSTD_DCtx* ldctx = ZSTD_createDCtx();
+    struct GDX { ZSTD_DCtx* d; ~GDX() { ZSTD_freeDCtx(d); } } gdx{ldctx};
+    ZSTD_DCtx_setParameter(ldctx, ZSTD_d_windowLogMax, 31);
     unsigned nframes = (unsigned)t.range(2, g_thorough ? 40 : 14);
     unsigned long long corr0 = wocf_ZSTD_verif_probe[0], inval0 = wocf_ZSTD_verif_probe[1];
     unsigned long long total = 0;
@@ -93,7 +98,8 @@ void vf_case(vf::Ctx& c) {
         size_t wl = (size_t)F.ps.get(ZSTD_c_windowLog, 10);
         size_t maxsz = (lvl >= 16 || strat >= 7) ? (150u << 10) : (g_thorough ? (2u << 20) : (700u << 10));
         gen::ContentInfo ci;
-        if (ldm && ((size_t)3 << wl) < maxsz && t.flip()) F.x = gen::gen_content_sized(t, (size_t)t.range((size_t)2 << wl, maxsz), &ci, (size_t)1 << wl);   // longer than the window
+        if (wl >= 17 && (((size_t)2 << wl) + (128u << 10)) < maxsz && t.chance(40)) { F.x = gen::gen_ring_stress(t, (size_t)t.range(((size_t)2 << wl) + (128u << 10), maxsz), (size_t)1 << wl); c.label("frames_ring_stress"); }
+        else if (ldm && ((size_t)3 << wl) < maxsz && t.flip()) F.x = gen::gen_content_sized(t, (size_t)t.range((size_t)2 << wl, maxsz), &ci, (size_t)1 << wl);   // longer than the window
         else F.x = gen::gen_content(t, maxsz, &ci, (size_t)1 << wl);
         if (t.chance(ldm ? 40 : 20)) { F.asPrefix = t.flip(); F.dict = gen::gen_content_sized(t, (size_t)t.range(8, 20000)); if (F.dict.size() >= 4 && F.dict[0] == 0x37 && F.dict[1] == 0xA4) F.dict[0] = 1; if (F.x.size() > F.dict.size() && F.dict.size() > 64) memcpy(F.x.data(), F.dict.data() + F.dict.size() - 64, 64); }
         unsigned ns = (unsigned)t.range(0, 5);
@@ -126,6 +132,27 @@ void vf_case(vf::Ctx& c) {
             std::string v = conform::check(a.data(), a.size(), F.x.data(), F.x.size(), F.dict.empty() ? nullptr : F.dict.data(), F.dict.size(), ex, &facts);
             VF_CHECK(c, v.empty(), "frame %u of a long-lived context is not conformant: %s", fi, v.c_str());
             if (corrections) for (auto& ff : facts) if (ff.nseq) crossed++;
+        }
+        // the long-lived streaming decoder (its ring wraps on every frame longer than window + 2 blocks)
+        {
+            ZSTD_DCtx_reset(ldctx, ZSTD_reset_session_only);
+            if (!F.dict.empty()) { if (F.asPrefix) ZSTD_DCtx_refPrefix(ldctx, F.dict.data(), F.dict.size()); else ZSTD_DCtx_loadDictionary(ldctx, F.dict.data(), F.dict.size()); }
+            else ZSTD_DCtx_refDDict(ldctx, nullptr);
+            size_t oc = (size_t)t.pick<size_t>({4096, 1000, 65536, 131072, 17});
+            if (F.x.size() > (200u << 10) && oc < 1000) oc = 4096;
+            vf::Buf ob(oc);
+            ZSTD_inBuffer in = {a.data(), a.size(), 0}; size_t prod = 0, rr = 1; bool same = true;
+            for (unsigned long g2 = 0; g2 < 100000000ul && rr != 0; g2++) {
+                ZSTD_outBuffer o = {ob.p, ob.n, 0};
+                size_t ip = in.pos;
+                rr = ZSTD_decompressStream(ldctx, &o, &in);
+                if (ZSTD_isError(rr)) break;
+                if (o.pos && (prod + o.pos > F.x.size() || memcmp(F.x.data() + prod, ob.p, o.pos))) { same = false; break; }
+                prod += o.pos;
+                if (in.pos == ip && o.pos == 0) break;
+            }
+            VF_CHECK(c, !ZSTD_isError(rr) && same && prod == F.x.size(), "frame %u through a long-lived streaming decoder (output chunks of %zu, window 2^%zu): %s at regenerated offset %zu of %zu", fi, oc, wl, ZSTD_isError(rr) ? ZSTD_getErrorName(rr) : "content differs / incomplete", prod, F.x.size());
+            c.label("frames_through_long_lived_streaming_decoder");
         }
         // a reused, much-rebased context behaves as a fresh one
         if (a != b) {
